@@ -1,4 +1,5 @@
 import SnootyVerif.Proofs.EventWalk
+import SnootyVerif.Gen.Guards
 import SnootyVerif.Properties.C06
 import SnootyVerif.Properties.C07
 import SnootyVerif.Properties.C10
@@ -47,6 +48,16 @@ example : (iterate [] (.root 1 "index.txt" [.plain 2 [.root 3 "inc.rst" [.leaf 4
        .exit 2 (some "index.txt") (some "index.txt"), .enter 5 (some "index.txt") (some "index.txt"),
        .exit 5 (some "index.txt") (some "index.txt"), .exit 1 (some "index.txt") (some "index.txt")] := by
   decide
+
+/-- Option subscripts that may stay unguarded, with the reason: both keys are written on the page's
+Root options by the same function a few lines earlier (`if not options.get(k): options[k] = {}`). -/
+def justified : List (String × String) :=
+  [("TabsSelectorHandler.exit_page", "selectors"), ("TabsSelectorHandler.exit_page", "default_tabs")]
+
+/-- Every `X.options["key"]` read in postprocess.py (table regenerated from /repo on every run) is
+protected by a membership test / early exit / try-except, or is one of the justified reads: no
+handler can raise KeyError on a directive whose option the author left out. -/
+theorem guards_justified : ∀ p ∈ SnootyVerif.Gen.unguardedOptionReads, p ∈ justified := by decide
 
 /-- the three unbounded recursions of the postprocessor terminate (re-exported) -/
 theorem include_pass_terminates (pages : SnootyVerif.Include.Pages) (page : String) :
